@@ -753,8 +753,12 @@ def header_block_cases(oc: core.Outcome, tables) -> Dict[str, int]:
         for name, sp in tables[b].items():
             if not sp["includes"]:
                 continue
-            for incs in ([sp["includes"][0]], list(sp["includes"]) + ["vector"]):
-                blk = {"metadata_type": "inject_code", "name": "fv_hdr", "header_includes": incs, "private_members": ["int m_fv_x;"]}
+            variants = [{"header_includes": [sp["includes"][0]]}, {"header_includes": list(sp["includes"]) + ["vector"]},
+                        {"body_includes": list(sp["includes"]) + ["vector"], "link_libraries": list(sp.get("libs", []))},
+                        {"body_includes": [sp["includes"][0]], "header_includes": [sp["includes"][0]]}]
+            for fields in variants:
+                incs = fields
+                blk = {"metadata_type": "inject_code", "name": "fv_hdr", "private_members": ["int m_fv_x;"], **fields}
                 kind = "Count()" if sp["coll"] else "isValid()"
                 src = f'ds.Select(lambda e: e.{name}("b1").{kind})' if sp["coll"] else f'ds.Select(lambda e: e.{name}("b1").runNumber())'
                 try:
@@ -770,11 +774,16 @@ def header_block_cases(oc: core.Outcome, tables) -> Dict[str, int]:
                 text = files[MAIN_FILE[b]]["text"] + (files.get("query.h", {"text": ""})["text"] if b == "atlas" else "")
                 got = re.findall(r'#include "([^"]+)"', text)
                 missing = [i for i in sp["includes"] if i not in got]
+                if b == "atlas" and sp.get("libs") and "package_CMakeLists.txt" in files:
+                    cm = files["package_CMakeLists.txt"]["text"]
+                    m_ = re.search(r"LINK_LIBRARIES ([^)]*)\)", cm)
+                    have = m_.group(1).split() if m_ else []
+                    missing += ["library " + lib for lib in sp["libs"] if lib not in have]
                 hist["included" if not missing else "MISSING"] += 1
                 if missing:
                     oc.violations.append(core.Violation(
                         key="c06:missing-include",
-                        what=f"{b}: {src} with an inject_code block whose header_includes are {incs}: {name} needs {missing}, which no generated source file includes",
+                        what=f"{b}: {src} with an inject_code block {incs}: {name} needs {missing}, which the generated package does not request",
                         replay={"kind": "header-block", "backend": b, "query": src, "metadata": [blk], "missing": missing}))
     return dict(hist)
 
